@@ -15,6 +15,8 @@ def make_wl(rng, k):
     spec["twin_chr"] = 1 if (k is not None and k % 4 == 3) or rng.random() < 0.2 else 0
     spec["antisense"] = rng.choice([0, 1])
     spec["n_chr"] = rng.choice([3, 4, 5])
+    if k is not None and k % 4 == 2:
+        spec["long_locus"] = 2       # a reference isoform seen in two processing regions of one read island
     opts["annotated"] = True if spec["pre_ids"] else opts.get("annotated", True)
     return spec, opts
 
